@@ -147,21 +147,59 @@ def float_within_print_precision(m, ss):
     return False
 
 
+def deprecated_parameter_set(m, ss):
+    """finding class D47: the working set holds a parameter the master declares .deprecated (fetch keeps such a parameter only
+    when a source sets it away from the default; extract() then shows it, but fetch_diff compares attributes-level-0 prints,
+    which never show a deprecated definition)"""
+    try:
+        w = m.fetch(sources=ss)
+    except BaseException:
+        return False
+    return any(l.object.deprecated for l in w.all_definitions())
+
+
+def _live_dollar(word):
+    return word.quote_token != "'" and "$" in word.value.replace("\\$", "")
+
+
+def live_dollar_in_working_set(m, ss):
+    """finding class D48: the master's own defaults are free of `$`, yet the working set holds a word that is not single-quoted
+    and contains an unescaped `$` -- text that substitution spliced in from a single-quoted word (or the environment) and that
+    the next fetch takes for a variable reference again"""
+    def words_of(o):
+        for l in o.all_definitions():
+            for wd in l.object.words:
+                yield wd
+    try:
+        if any("$" in wd.value for wd in words_of(m)):
+            return False
+        w = m.fetch(sources=ss)
+    except BaseException:
+        return False
+    return any(_live_dollar(wd) for wd in words_of(w))
+
+
 RESTORE_CLAUSES = ("merging the difference", "difference of the difference-restored")
+RESUBSTITUTION = RESTORE_CLAUSES + ("re-merge raised RuntimeError: Undefined variable",)
 
 
 def finding_classes(m, ss, what):
-    """Both findings on the unchanged tree are failures of the restore clauses (the re-merged difference is not W); neither
-    makes a difference non-minimal nor the difference of the master's own defaults non-empty, so they cover nothing there."""
-    if not what.startswith(RESTORE_CLAUSES):
-        return []
+    """The findings on the unchanged tree are failures of the restore clauses (the re-merged difference is not W); none
+    makes a difference non-minimal nor the difference of the master's own defaults non-empty, so they cover nothing there.
+    D48 (a spliced `$` is substituted again) also shows as the re-merge refusing a variable that is now undefined."""
     cls = []
+    if what.startswith(RESUBSTITUTION) and live_dollar_in_working_set(m, ss):
+        cls.append("D48")
+    if not what.startswith(RESTORE_CLAUSES):
+        return cls
     if master_has_nested_multiple(m):
         cls.append("D8")
     if master_relists_instance(m):
         cls.append("D10")
     if float_within_print_precision(m, ss):
         cls.append("D42")
+    if deprecated_parameter_set(m, ss):
+        cls.append("D47")
     return cls
 
 
@@ -312,8 +350,71 @@ def run(ctx):
             routed(ctx, rng_routes, tree, mt, srcs)
         if i % 250 == 0 and d is not None:
             ctx.sample({"master": mt, "sources": srcs, "difference": d.as_str()})
+    deprecated_stream(ctx, cases, reqs, impls)
+    resubstitution_stream(ctx)
     if reqs and ctx.mode != "impl-only":
         ctx.corr("fetch_diff", cases, reqs, impls)
+
+
+def deprecated_stream(ctx, cases, reqs, impls):
+    """masters that declare .deprecated parameters (own generator state: the base stream stays what it was); the sources leave
+    such a parameter at its default half of the time and set it otherwise -- the second is finding class D47"""
+    import random
+    rng = random.Random(ctx.seed * 1000003 + 47)
+    for i in range(ctx.scale(250, 6000, 1200)):
+        if ctx.time_left() < 30:
+            break
+        tree, mt, srcs = _fetch.gen(rng, nested=False, deprecated=True)
+        if ".deprecated = True" not in mt:
+            continue
+        m = freephil.parse(input_string=mt)
+        ss = [freephil.parse(input_string=s) for s in srcs]
+        f, d = check(m, ss, tree)
+        ctx.case((mt, tuple(srcs)), nontrivial=d is not None and d.as_str() != "")
+        ctx.count("deprecated_master")
+        if deprecated_parameter_set(m, ss):
+            ctx.count("deprecated_parameter_set")
+        case = {"master": mt, "sources": srcs}
+        if f:
+            ctx.fail(case, f, finding=finding_classes(m, ss, f), model_violates=None)
+        reqs.append(_fetch.fetch_req(mt, srcs, diff=True))
+        impls.append(_fetch.fetch_impl(m, [freephil.parse(input_string=s_) for s_ in srcs], diff=True))
+        cases.append(case)
+
+
+TEXT_TYPES = ("str", "path", "key", "strings", None)
+
+
+def resubstitution_stream(ctx):
+    """impl-only stream for finding class D48: a source holds `$name` inside a single-quoted word (which substitution leaves
+    alone) and splices that word into a mixture, which becomes a double-quoted word of W with a live `$`.  `name` is undefined,
+    or names a master parameter declared earlier (then the re-merge silently substitutes its value)."""
+    import random
+    rng = random.Random(ctx.seed * 1000003 + 48)
+    for i in range(ctx.scale(120, 3000, 600)):
+        if ctx.time_left() < 30:
+            break
+        tree = mgen.MasterGen(rng, depth=rng.choice([0, 1]), multiples=False, disabled=False).tree()
+        mt = mgen.render_master(tree)
+        tops = [n for n in tree if n["k"] == "d"]
+        targets = [(j, n) for j, n in enumerate(tops) if n["type"] in TEXT_TYPES]
+        if not targets:
+            continue
+        j, n = rng.choice(targets)
+        earlier = [e["name"] for e in tops[:j]]
+        name = rng.choice(earlier) if earlier and rng.random() < 0.5 else "undefined_x"
+        ref = rng.choice(["$zq1", "$(zq1)"])
+        mix = rng.choice(['pre%s' % ref, '"pre %s"' % ref, '"%s z"' % ref, 'x%sy' % "$(zq1)"])
+        src = "zq1 = '%s'\n%s = %s\n" % (rng.choice(["$" + name, "$(" + name + ")", "a $" + name]), n["name"], mix)
+        m = freephil.parse(input_string=mt)
+        ss = [freephil.parse(input_string=src)]
+        f, d = check(m, ss, tree)
+        ctx.case((mt, src), nontrivial=d is not None and d.as_str() != "")
+        ctx.count("spliced_dollar")
+        if live_dollar_in_working_set(m, ss):
+            ctx.count("spliced_dollar_live_in_W")
+        if f:
+            ctx.fail({"master": mt, "sources": [src]}, f, finding=finding_classes(m, ss, f), model_violates=None)
 
 
 def finding_still_fails(f):
